@@ -20,7 +20,10 @@ import (
 var editProfiles = []docProfile{profTiny, profTiny, profMedium, profKeys, profUniq, profStr, profNum}
 
 func c13Check(c historyCase) error { return runHistory(c, fullInvariants, nil) }
-func c14Check(c historyCase) error { return runHistory(c, fullInvariants, c14After) }
+func c14Check(c historyCase) error {
+	c14ReuseEls, c14PrevKeys = nil, nil // per-case state, so that a case replays on its own
+	return runHistory(c, fullInvariants, c14After)
+}
 func c10Check(c historyCase) error {
 	return runHistory(c, invariantSet{marshal: true, tape: false, walkers: false, serialize: false}, c10After)
 }
@@ -145,6 +148,11 @@ func c14After(step int, pj *simdjson.ParsedJson, roots []*rj.Node) error {
 	return lookupAllMembers(pj, roots)
 }
 
+var (
+	c14ReuseEls *simdjson.Elements
+	c14PrevKeys []string
+)
+
 // lookupAllMembers: for every object in the model, FindKey(first occurrence of each key) and FindPath agree with the model;
 // Object.Parse / Elements.Lookup / Map list exactly the survivors; Array.MarshalJSON / Elements.MarshalJSON denote them.
 func lookupAllMembers(pj *simdjson.ParsedJson, roots []*rj.Node) error {
@@ -220,11 +228,30 @@ func lookupAllMembers(pj *simdjson.ParsedJson, roots []*rj.Node) error {
 			if el := o4.FindKey("no-such-key-\x00", nil); el != nil {
 				return fmt.Errorf("FindKey of an absent key at %v returned %q", path, el.Name)
 			}
-			// Parse: all survivors in order
+			// Parse: all survivors in order; the Elements destination is reused from object to object and from step to step
 			o5 := *obj
-			els, err := o5.Parse(nil)
+			els, err := o5.Parse(c14ReuseEls)
 			if err != nil {
 				return fmt.Errorf("Object.Parse at %v: %v", path, err)
+			}
+			c14ReuseEls = els
+			distinct := map[string]bool{}
+			for _, m := range n.O {
+				distinct[string(m.Key)] = true
+			}
+			if len(els.Index) != len(distinct) {
+				return fmt.Errorf("Object.Parse at %v into a reused Elements: Index holds %d keys, the object has %d distinct keys", path, len(els.Index), len(distinct))
+			}
+			for _, k := range c14PrevKeys {
+				if !distinct[k] {
+					if el := els.Lookup(k); el != nil {
+						return fmt.Errorf("Elements.Lookup(%q) at %v finds %q although no live member has that key (it was deleted, or belongs to the object parsed into the same Elements before)", k, path, el.Name)
+					}
+				}
+			}
+			c14PrevKeys = c14PrevKeys[:0]
+			for k := range distinct {
+				c14PrevKeys = append(c14PrevKeys, k)
 			}
 			if len(els.Elements) != len(n.O) {
 				return fmt.Errorf("Object.Parse at %v lists %d members, the object has %d", path, len(els.Elements), len(n.O))
